@@ -1,6 +1,7 @@
 import Aqv.Base.Proto
 import Aqv.Model.TxPool
 import Aqv.Model.TxPriced
+import Aqv.Model.TxSortedMap
 open Aqv Aqv.Proto Aqv.TxPool
 
 /-!
@@ -331,10 +332,49 @@ def isReinjectHole (k : Nat) (s o : Pool) : Bool :=
     (let run := (runFrom (o.cnonce a) (o.pending a).items).1.length
      decide (o.cnonce a + run < s.cnonce a)))
 
+/-! ### txSortedMap cases (`sm=1 it=<contents> ca=<n|cache> op=… o.a=… ⇥ res=<returned> it=… ca=…`) -/
+
+def parseCache (s : String) : Option (List Tx) := if s == "n" then none else some (parseTxs s)
+
+def renderSMap (m : SMap) : String :=
+  "it=" ++ renderTxs m.items ++ " ca=" ++ (match m.cache with | none => "n" | some c => renderTxs c)
+
+def handleSM (fi fo : List String) : String :=
+  let m : SMap := ⟨parseTxs (kv fi "it"), parseCache (kv fi "ca")⟩
+  let o : SMap := ⟨parseTxs (kv fo "it"), parseCache (kv fo "ca")⟩
+  let a := nat! (kv fi "o.a")
+  let op : Option SOp := match kv fi "op" with
+    | "put" => (parseTx (kv fi "o.tx")).map SOp.put
+    | "forward" => some (.forward a)
+    | "filter" => some (.filter (fun t => decide (a < t.price)))
+    | "cap" => some (.cap a)
+    | "remove" => some (.remove a)
+    | "ready" => some (.ready a)
+    | "flatten" => some .flatten
+    | _ => none
+  match op with
+  | none => "bad-op\tagree"
+  | some op =>
+    -- Spec first: the observed map is sorted and its cache, if any, is its contents
+    if !o.coherentB then "spec\tspec-reject:cache: the cached list is not the nonce-sorted contents"
+    else
+      let r := m.step op
+      let res := parseTxs (kv fo "res")
+      -- returned transactions: Cap returns highest nonce first, Filter in map order: compared as sets; the others in order
+      let resOK := match op with
+        | .cap _ => res.reverse == r.1
+        | .filter _ => sameSet res r.1 && res.length == r.1.length
+        | _ => res == r.1
+      if !resOK then s!"returned {renderTxs r.1}\tspec-ok"
+      else if r.2.items != o.items then s!"{renderSMap r.2}\tspec-ok"
+      else if r.2.cache != o.cache then s!"{renderSMap r.2}\tspec-ok"
+      else "ok\tagree"
+
 def handle (l : String) : String :=
   let (inp, go) := splitCase l
   let fi := fields inp
   let fo := fields go
+  if kv fi "sm" == "1" then handleSM fi fo else
   let cfg := parseCfg (kv fi "cfg")
   let (s, k) := parseState cfg fi
   let (o, _) := parseState cfg fo
